@@ -62,6 +62,11 @@ CLAIMED = {
    note="Trusted: Lean kernel; Spec/PortMemory.lean; controller-side stub written from crossbar.py; master obeys the port rules of the property. Equal-width path (plain connect) not modelled.",
    technique="Lean 4 proof (FSM/trace invariants by induction over schedules, refuting witnesses by kernel evaluation) + cycle-exact co-simulation + Lean port-memory specification evaluated on implementation runs",
    design="§6 C07"),
+ "C09": dict(
+   text="Cycle-accurate Lean model of LiteDRAMAXI2Native: LiteX AXIBurst2Beat, channel buffers, buffered write/read FIFOs with their reservation counters, write-ID/response FIFOs (storage modelled exactly), round-robin arbitration and the read-modify-write FSM, co-simulated against the real module for data widths 16..128, buffer depths 2..16, base addresses, with and without read-modify-write under legal AXI4 traffic (FIXED/INCR/WRAP, lengths 1..16, narrow sizes, unaligned starts, strobes inside the active lanes, W leading or trailing AW, stalls on all five channels incl. long B/R back-pressure); two Lean specifications are evaluated on the real module: Spec/AxiSpec (one B per burst in order with its ID and only after its data reached the native port; len+1 R beats with ID and LAST in order) and Spec/PortMemory (strobed bytes, read-after-response); theorems: FIXED/INCR address sequences of the burst-to-beat generator, byte-exact read-modify-write merge, RMW starts only on a drained write path and what each RMW state does, read reservation bounded for every run, command source/arbitration. Three genuine defects found and fixed.",
+   note="Trusted: Lean kernel; Spec/AxiSpec.lean, Spec/PortMemory.lean; native-side stub written from crossbar.py; the master avoids read/write hazards so the memory specification is sequential; WRAP addresses are checked against an independent AXI reference in the harness (no theorem).",
+   technique="Lean 4 proof (address-generator induction step, byte-level merge induction, invariants over runs) + cycle-exact co-simulation + two Lean specifications evaluated on implementation runs",
+   design="§6 C09"),
  "C10": dict(
    text="Cycle-accurate Lean models of LiteDRAMWishbone2Native (three-state FSM for equal/wider buses; burst up-converter with write merging and read cache for narrower buses) and LiteDRAMNative2Wishbone, co-simulated against the real modules; for every width ratio the port-memory specification is evaluated at the Wishbone side of the real module under classic cycles, incrementing bursts, mixed read/write under one CYC, byte selects and aborts at random cycles, and the native-side memory compared; theorems for every master behaviour and port timing: acknowledge only on completion and only to a requesting, non-aborted master, exactly one completion per accepted access and at most one acknowledge per completion (counting over whole runs), aborted writes complete without byte enables, lane placement arithmetic, cache invalidated by every write and by CYC low, reads wait for pending merged writes, cache hits/port reads return the requested lane. One genuine defect (abort in WRITE hangs the bridge) found and fixed.",
    note="Trusted: Lean kernel; Spec/PortMemory.lean; native-side stub written from crossbar.py; aborted writes only to a scratch region. Wider-bus composition with the down-converter judged by the specification (converter covered by C07).",
